@@ -106,7 +106,9 @@ Perturb(Jd, depth) ==
           \cup (IF Len(Jd.m) > 0 THEN {Obj(Tail(Jd.m)), Obj(Jd.m \o <<Jd.m[1]>>), Obj(Jd.m \o <<KV(Jd.m[1].k, Null)>>),
                                       Obj(Jd.m \o <<KV(Jd.m[1].k, N("p12"))>>), Obj(<<KV("Z", Arr(<<N("p7")>>))>> \o Jd.m),
                                       Obj(Jd.m \o <<KV("Z", [j |-> "x", c |-> "xtru"])>>), Obj(Jd.m \o <<KV("Z", N("big"))>>),
-                                      Obj(Jd.m \o <<KV("Z", [j |-> "xs", c |-> "xnone"])>>)} ELSE {})
+                                      Obj(Jd.m \o <<KV("Z", [j |-> "xs", c |-> "xnone"])>>),
+                                      \* a member that is nothing at all: a trailing / leading comma
+                                      Obj(Jd.m \o <<KV("~comma", [j |-> "xs", c |-> "xnone"])>>), Obj(<<KV("~comma", [j |-> "xs", c |-> "xnone"])>> \o Jd.m)} ELSE {})
      [] OTHER -> {})
 
 BigVal(t, i) == IF t.f[i].t.k = "str" THEN S(IF i % 8 = 0 THEN "sx" ELSE "s12") ELSE N(IF i % 3 = 0 THEN "p7" ELSE IF i % 3 = 1 THEN "p12" ELSE "p300")
